@@ -228,3 +228,10 @@ pub fn open_fds() -> usize {
 pub fn arc<T>(t: T) -> Arc<T> {
   Arc::new(t)
 }
+
+/// Run one scenario to completion on `rt`; a panic of the scenario future itself (harness
+/// `unwrap`s on flaky environment conditions, or rzmq panicking on the caller's stack) is caught
+/// so that the shard continues. Returns false if it panicked (records stay in the panic watch).
+pub fn guarded<F: Future<Output = ()>>(rt: &tokio::runtime::Runtime, f: F) -> bool {
+  std::panic::catch_unwind(std::panic::AssertUnwindSafe(|| rt.block_on(f))).is_ok()
+}
